@@ -35,14 +35,16 @@ theorem C16_buffer_writes : Gen.bufferAttrWrites =
      ("__setitem__", "self", "content"), ("__setitem__", "self", "length"), ("__setitem__", "self", "padding_length"),
      ("_shift_left", "self", "content"), ("_shift_left", "self", "length"), ("_shift_right", "self", "content"), ("_shift_right", "self", "length"),
      ("_update_padding", "self", "padding_length"),
-     ("pad", "buffer", "length"), ("pad", "buffer", "padding"), ("pad", "buffer", "padding_length"),
-     ("pad", "self", "content"), ("pad", "self", "length"), ("pad", "self", "padding"), ("pad", "self_copy", "length"), ("pad", "self_copy", "padding")] := by
+     ("pad", "loc1", "length"), ("pad", "loc1", "padding"), ("pad", "loc4", "length"), ("pad", "loc4", "padding"), ("pad", "loc4", "padding_length"),
+     ("pad", "self", "content"), ("pad", "self", "length"), ("pad", "self", "padding")] := by
   decide
 
 /-- every call of a possibly mutating Buffer method inside buffer.py is either not in-place, or acts on a copy
-    made in the same method (`pad` on `self_copy`, `shift` on `buffer`), or is one of the in-place primitives -/
+    made in the same method (`pad` on its first local `self_copy`, `shift` on its first local `buffer` — receivers are
+    identified by role: `self`, `arg<i>` = i-th parameter, `loc<k>` = k-th local in order of first binding, so that
+    renaming a variable changes nothing), or is one of the in-place primitives -/
 theorem C16_buffer_calls : Gen.bufferMutatingCalls.all (fun c =>
-    c.2.2.2 == false || (c.1 == "pad" && c.2.2.1 == "self_copy") || (c.1 == "shift" && c.2.2.1 == "buffer")
+    c.2.2.2 == false || (c.1 == "pad" && c.2.2.1 == "loc1") || (c.1 == "shift" && c.2.2.1 == "loc1")
       || c.1 == "_shift_left" || c.1 == "_shift_right") = true := by
   decide
 
@@ -52,56 +54,56 @@ theorem C16_buffer_calls : Gen.bufferMutatingCalls.all (fun c =>
 def allowedMutationSites : List (String × String × String × String × String) := [
   ("microschc", "SCHC.__init__", "self", "attr:context_managers", "constructor initialises its own object"),
   ("microschc", "SCHC.__init__", "self.context_managers", "item", "constructor initialises its own object"),
-  ("microschc", "SCHC.__init__", "self.context_managers[context.interface_id]", "call:append", "constructor initialises its own object"),
+  ("microschc", "SCHC.__init__", "self.context_managers[loc1.interface_id]", "call:append", "constructor initialises its own object (`self.context_managers[context.interface_id]` in the source)"),
   ("microschc.decompressor.decompressor", "ComputeEntry.__init__", "self", "attr:dependencies", "constructor initialises its own object"),
   ("microschc.decompressor.decompressor", "ComputeEntry.__init__", "self", "attr:field_id", "constructor initialises its own object"),
   ("microschc.decompressor.decompressor", "ComputeEntry.__init__", "self", "attr:field_position", "constructor initialises its own object"),
   ("microschc.decompressor.decompressor", "ComputeEntry.__init__", "self", "attr:function", "constructor initialises its own object"),
-  ("microschc.decompressor.decompressor", "decompress", "compute_entries", "call:append", "local container created in this call"),
-  ("microschc.decompressor.decompressor", "decompress", "compute_entries", "call:sort", "local container created in this call"),
-  ("microschc.decompressor.decompressor", "decompress", "decompressed_fields", "call:append", "local container created in this call"),
-  ("microschc.decompressor.decompressor", "decompress", "decompressed_fields", "item", "local container created in this call"),
-  ("microschc.decompressor.decompressor", "decompress", "length_buffer", "call:pad(inplace=True)", "fresh slice of the SCHC packet created in this call"),
+  ("microschc.decompressor.decompressor", "decompress", "loc1", "call:append", "local container created in this call (`compute_entries` in the source)"),
+  ("microschc.decompressor.decompressor", "decompress", "loc1", "call:sort", "local container created in this call (`compute_entries` in the source)"),
+  ("microschc.decompressor.decompressor", "decompress", "loc12", "call:pad(inplace=True)", "fresh slice of the SCHC packet created in this call (`length_buffer` in the source)"),
+  ("microschc.decompressor.decompressor", "decompress", "loc2", "call:append", "local container created in this call (`decompressed_fields` in the source)"),
+  ("microschc.decompressor.decompressor", "decompress", "loc2", "item", "local container created in this call (`decompressed_fields` in the source)"),
   ("microschc.manager.manager", "ContextManager.__init__", "self", "attr:context", "constructor initialises its own object"),
   ("microschc.manager.manager", "ContextManager.__init__", "self", "attr:parser", "constructor initialises its own object"),
   ("microschc.manager.manager", "ContextManager.__init__", "self", "attr:ruler", "constructor initialises its own object"),
-  ("microschc.manager.manager", "ContextManager.compress", "packet_descriptor", "attr:direction", "descriptor freshly returned by parser.parse in this call"),
+  ("microschc.manager.manager", "ContextManager.compress", "loc1", "attr:direction", "descriptor freshly returned by parser.parse in this call (`packet_descriptor` in the source)"),
   ("microschc.parser.parser", "HeaderParser.__init__", "self", "attr:name", "constructor initialises its own object"),
   ("microschc.parser.parser", "HeaderParser.__init__", "self", "attr:predict_next", "constructor initialises its own object"),
   ("microschc.parser.parser", "PacketParser.__init__", "self", "attr:name", "constructor initialises its own object"),
   ("microschc.parser.parser", "PacketParser.__init__", "self", "attr:parsers", "constructor initialises its own object"),
-  ("microschc.parser.parser", "PacketParser.parse", "header_descriptors", "call:append", "local container created in this call"),
-  ("microschc.parser.parser", "PacketParser.unparse", "unparsed_fields", "call:extend", "local container created in this call"),
+  ("microschc.parser.parser", "PacketParser.parse", "loc2", "call:append", "local container created in this call (`header_descriptors` in the source)"),
+  ("microschc.parser.parser", "PacketParser.unparse", "loc1", "call:extend", "local container created in this call (`unparsed_fields` in the source)"),
   ("microschc.protocol.coap", "CoAPParser.__init__", "self", "attr:interpret_options", "constructor initialises its own object"),
   ("microschc.protocol.coap", "CoAPParser.__init__", "self", "attr:unknown_option_pattern", "constructor initialises its own object"),
-  ("microschc.protocol.coap", "CoAPParser.parse", "header_fields", "call:append", "local container created in this call"),
-  ("microschc.protocol.coap", "CoAPParser.unparse", "unparsed_fields", "call:append", "local container created in this call"),
-  ("microschc.protocol.coap", "_parse_options", "fields", "call:append", "local container created in this call"),
-  ("microschc.protocol.coap", "_parse_options", "option_field_positions", "item", "local container created in this call"),
-  ("microschc.protocol.ipv4", "IPv4Parser.parse", "header_descriptor", "attr:length", "HeaderDescriptor freshly built in this call"),
-  ("microschc.protocol.ipv4", "IPv4Parser.parse", "header_descriptor.fields", "call:extend", "HeaderDescriptor freshly built in this call"),
-  ("microschc.protocol.ipv6", "IPv6Parser.parse", "header_descriptor", "attr:length", "HeaderDescriptor freshly built in this call"),
-  ("microschc.protocol.ipv6", "IPv6Parser.parse", "header_descriptor.fields", "call:extend", "HeaderDescriptor freshly built in this call"),
+  ("microschc.protocol.coap", "CoAPParser.parse", "loc8", "call:append", "local container created in this call (`header_fields` in the source)"),
+  ("microschc.protocol.coap", "CoAPParser.unparse", "loc1", "call:append", "local container created in this call (`unparsed_fields` in the source)"),
+  ("microschc.protocol.coap", "_parse_options", "loc1", "call:append", "local container created in this call (`fields` in the source)"),
+  ("microschc.protocol.coap", "_parse_options", "loc3", "item", "local container created in this call (`option_field_positions` in the source)"),
+  ("microschc.protocol.ipv4", "IPv4Parser.parse", "loc13", "attr:length", "HeaderDescriptor freshly built in this call (`header_descriptor` in the source)"),
+  ("microschc.protocol.ipv4", "IPv4Parser.parse", "loc13.fields", "call:extend", "HeaderDescriptor freshly built in this call (`header_descriptor.fields` in the source)"),
+  ("microschc.protocol.ipv6", "IPv6Parser.parse", "loc9", "attr:length", "HeaderDescriptor freshly built in this call (`header_descriptor` in the source)"),
+  ("microschc.protocol.ipv6", "IPv6Parser.parse", "loc9.fields", "call:extend", "HeaderDescriptor freshly built in this call (`header_descriptor.fields` in the source)"),
   ("microschc.protocol.registry", "REGISTER_PARSER", "PARSERS", "item", "import-time registration in the module table"),
-  ("microschc.protocol.sctp", "SCTPParser._parse_chunk", "fields", "call:append", "local container created in this call"),
-  ("microschc.protocol.sctp", "SCTPParser._parse_chunk", "fields", "call:extend", "local container created in this call"),
-  ("microschc.protocol.sctp", "SCTPParser._parse_chunk_abort", "fields", "call:extend", "local container created in this call"),
-  ("microschc.protocol.sctp", "SCTPParser._parse_chunk_cookie_echo", "fields", "call:append", "local container created in this call"),
-  ("microschc.protocol.sctp", "SCTPParser._parse_chunk_data", "fields", "call:append", "local container created in this call"),
-  ("microschc.protocol.sctp", "SCTPParser._parse_chunk_data", "fields", "call:extend", "local container created in this call"),
-  ("microschc.protocol.sctp", "SCTPParser._parse_chunk_error", "fields", "call:extend", "local container created in this call"),
-  ("microschc.protocol.sctp", "SCTPParser._parse_chunk_heartbeat", "fields", "call:extend", "local container created in this call"),
-  ("microschc.protocol.sctp", "SCTPParser._parse_chunk_heartbeat_ack", "fields", "call:extend", "local container created in this call"),
-  ("microschc.protocol.sctp", "SCTPParser._parse_chunk_init", "fields", "call:extend", "local container created in this call"),
-  ("microschc.protocol.sctp", "SCTPParser._parse_chunk_init_ack", "fields", "call:extend", "local container created in this call"),
-  ("microschc.protocol.sctp", "SCTPParser._parse_chunk_selective_ack", "fields", "call:extend", "local container created in this call"),
-  ("microschc.protocol.sctp", "SCTPParser._parse_chunk_shutdown", "fields", "call:append", "local container created in this call"),
-  ("microschc.protocol.sctp", "SCTPParser._parse_parameter", "fields", "call:append", "local container created in this call"),
-  ("microschc.protocol.sctp", "SCTPParser._parse_parameter", "fields", "call:extend", "local container created in this call"),
-  ("microschc.protocol.sctp", "SCTPParser.parse", "header_fields", "call:extend", "local container created in this call"),
+  ("microschc.protocol.sctp", "SCTPParser._parse_chunk", "loc1", "call:append", "local container created in this call (`fields` in the source)"),
+  ("microschc.protocol.sctp", "SCTPParser._parse_chunk", "loc1", "call:extend", "local container created in this call (`fields` in the source)"),
+  ("microschc.protocol.sctp", "SCTPParser._parse_chunk_abort", "loc1", "call:extend", "local container created in this call (`fields` in the source)"),
+  ("microschc.protocol.sctp", "SCTPParser._parse_chunk_cookie_echo", "loc1", "call:append", "local container created in this call (`fields` in the source)"),
+  ("microschc.protocol.sctp", "SCTPParser._parse_chunk_data", "loc1", "call:append", "local container created in this call (`fields` in the source)"),
+  ("microschc.protocol.sctp", "SCTPParser._parse_chunk_data", "loc1", "call:extend", "local container created in this call (`fields` in the source)"),
+  ("microschc.protocol.sctp", "SCTPParser._parse_chunk_error", "loc1", "call:extend", "local container created in this call (`fields` in the source)"),
+  ("microschc.protocol.sctp", "SCTPParser._parse_chunk_heartbeat", "loc1", "call:extend", "local container created in this call (`fields` in the source)"),
+  ("microschc.protocol.sctp", "SCTPParser._parse_chunk_heartbeat_ack", "loc1", "call:extend", "local container created in this call (`fields` in the source)"),
+  ("microschc.protocol.sctp", "SCTPParser._parse_chunk_init", "loc1", "call:extend", "local container created in this call (`fields` in the source)"),
+  ("microschc.protocol.sctp", "SCTPParser._parse_chunk_init_ack", "loc1", "call:extend", "local container created in this call (`fields` in the source)"),
+  ("microschc.protocol.sctp", "SCTPParser._parse_chunk_selective_ack", "loc1", "call:extend", "local container created in this call (`fields` in the source)"),
+  ("microschc.protocol.sctp", "SCTPParser._parse_chunk_shutdown", "loc1", "call:append", "local container created in this call (`fields` in the source)"),
+  ("microschc.protocol.sctp", "SCTPParser._parse_parameter", "loc1", "call:append", "local container created in this call (`fields` in the source)"),
+  ("microschc.protocol.sctp", "SCTPParser._parse_parameter", "loc1", "call:extend", "local container created in this call (`fields` in the source)"),
+  ("microschc.protocol.sctp", "SCTPParser.parse", "loc5", "call:extend", "local container created in this call (`header_fields` in the source)"),
   ("microschc.protocol.udp", "UDPParser.__init__", "self", "attr:predict_next", "constructor initialises its own object"),
-  ("microschc.protocol.udp", "UDPParser.parse", "header_descriptor", "attr:length", "HeaderDescriptor freshly built in this call"),
-  ("microschc.protocol.udp", "UDPParser.parse", "header_descriptor.fields", "call:extend", "HeaderDescriptor freshly built in this call"),
+  ("microschc.protocol.udp", "UDPParser.parse", "loc5", "attr:length", "HeaderDescriptor freshly built in this call (`header_descriptor` in the source)"),
+  ("microschc.protocol.udp", "UDPParser.parse", "loc5.fields", "call:extend", "HeaderDescriptor freshly built in this call (`header_descriptor.fields` in the source)"),
   ("microschc.ruler.ruler", "Ruler.__init__", "self", "attr:rules", "constructor initialises its own object")
 ]
 
